@@ -7,5 +7,6 @@ CONSTANTS
   MaxLen = 7
   MaxDepth = 3
   CheckDev = {}
+  FreshOnly = FALSE
 INVARIANTS LawsHold LawWellFormed Emit
 CHECK_DEADLOCK FALSE
